@@ -546,8 +546,11 @@ class CFGrid2DTopology(CFGridTopology):
             grid[:-1, :-1], grid[:-1, 1:], grid[1:, 1:], grid[1:, :-1],
         ], axis=-1)
 
-        # Set nan bounds for all cells that have any `nan` in its bounds.
-        cells_with_nans = numpy.isnan(bounds).any(axis=2)
+        # Set nan bounds for all cells that have any `nan` in its bounds,
+        # and for all cells that have no coordinate of their own.
+        # An isolated missing cell can still have four corners
+        # derived from its neighbours, but it is not part of the grid.
+        cells_with_nans = numpy.isnan(bounds).any(axis=2) | nan_coordinates
         bounds[cells_with_nans] = numpy.nan
 
         data_array = xarray.DataArray(
